@@ -1,6 +1,7 @@
 """Generator of programs in the shared program language (Go: harness/bsharness/prog.go, Lean: BS.Model.Prog)."""
 
 MAPS = ["inc", "swap", "id", "mod3", "mod5"]
+PMAPS = ["pid", "pinc"]
 PREDS = ["kmod3", "vodd", "none", "all"]
 
 
@@ -44,7 +45,11 @@ def gen_program(r, maxnodes=8, results=(), allow=None, big=False, e2e=False, res
             ordered[name] = False
         else:
             ordered[name] = all(ordered.get(s, True) for s in srcs)
-        if opname == "reshuffle2" or (any(s in pfx2 for s in srcs) and opname not in ("reduce", "cogroup")):
+        # a slice inherits the key prefix of its (first) argument; Map over Prefixed(src, 2) ("p…" functions) has prefix 2
+        fn = text.split()[2] if opname.startswith("map") else ""
+        if fn.startswith("q"):
+            pass        # Map over Prefixed(src, 1)
+        elif opname == "reshuffle2" or (any(s in pfx2 for s in srcs) and opname not in ("reduce", "cogroup")) or fn.startswith("p"):
             pfx2.add(name)
 
     nn = r.rng(1, maxnodes)
@@ -65,16 +70,22 @@ def gen_program(r, maxnodes=8, results=(), allow=None, big=False, e2e=False, res
             pass
         if k < 30:
             kind = r.choice(["map", "map", "map", "mapm", "mapp", "mapx"])
+            # "p…": the function applied to Prefixed(src, 2); mostly directly over a result argument
+            fn = r.choice(PMAPS) if r.chance(1, 2 if s.startswith("R") else 8) else r.choice(MAPS)
             if kind == "mapp":
-                add(kind, "mapp %s %s %d" % (s, r.choice(MAPS), r.rng(1, 3)), sh, (s,))
+                add(kind, "mapp %s %s %d" % (s, fn, r.rng(1, 3)), sh, (s,))
             else:
-                add(kind, "%s %s %s" % (kind, s, r.choice(MAPS)), sh, (s,))
+                add(kind, "%s %s %s" % (kind, s, fn), sh, (s,))
         elif k < 38:
             add("filter", "filter %s %s" % (s, r.choice(PREDS)), sh, (s,))
         elif k < 45:
             add("flatmap", "flatmap %s %s" % (s, r.choice(["dup", "two"])), sh, (s,))
         elif k < 50:
-            add("fold", "fold %s" % s, sh, (s,))
+            if s in pfx2:
+                # the model's keyed operators are written for a one-column key: over a prefix-2 slice only reshuffle2 is used
+                add("map", "map %s id" % s, sh, (s,))
+            else:
+                add("fold", "fold %s" % s, sh, (s,))
         elif k < 55:
             if e2e and not ordered.get(s, True):
                 add("filter", "filter %s all" % s, sh, (s,))
@@ -82,7 +93,7 @@ def gen_program(r, maxnodes=8, results=(), allow=None, big=False, e2e=False, res
                 add("head", "head %s %d" % (s, r.choice([0, 1, 2, 5])), sh, (s,))
         elif k < 68:
             if s in pfx2:
-                add("map", "map %s id" % s, sh, (s,))
+                add("map", "map %s %s" % (s, r.choice(["id", "qid"])), sh, (s,))
             else:
                 add("reduce", "reduce %s %s" % (s, r.choice(["add", "max"])), sh)
         elif k < 76:
@@ -94,12 +105,14 @@ def gen_program(r, maxnodes=8, results=(), allow=None, big=False, e2e=False, res
             else:
                 add("cogroup", "cogroup %s %s" % (s, s2), max(sh, sh2))
         elif k < 82:
-            kind = r.choice(["reshuffle", "reshuffle", "reshuffle2"])
+            kind = r.choice(["reshuffle", "reshuffle", "reshuffle2"] if not s.startswith("R") else ["reshuffle", "reshuffle2"])
+            if s in pfx2:
+                kind = "reshuffle2"
             add(kind, "%s %s" % (kind, s), sh, (s,))
         elif k < 87:
             add("repartition", "repartition %s %s" % (s, r.choice(["byval", "zero"])), sh, (s,))
         elif k < 93:
-            m = r.rng(1, 5)
+            m = r.rng(1, 5) if s not in pfx2 else sh
             add("reshard", "reshard %s %d" % (s, m), m, (s,))
             if m == sh:
                 ordered[nodes[-1][0]] = ordered.get(s, True)   # Reshard returns its argument
@@ -115,13 +128,12 @@ def gen_program(r, maxnodes=8, results=(), allow=None, big=False, e2e=False, res
                 add("count", "count %s %d" % (s, r.below(3)), sh, (s,))
     out = nodes[-1][0] if r.chance(4, 5) else r.choice(nodes)[0]
     if out in pfx2:
-        # keep result types simple: a result always has key prefix 1
-        cands = [n for n, _ in nodes if n not in pfx2]
-        out = cands[-1] if cands else None
-        if out is None:
-            stmts.append("N%d=const 1 1:1" % len(nodes))
-            nodes.append(("N%d" % (len(nodes)), 1))
-            out = nodes[-1][0]
+        # a result has key prefix 1: Map over Prefixed(out, 1)
+        name = "N%d" % len(nodes)
+        stmts.append("%s=map %s %s" % (name, out, r.choice(["qid", "qid", "qinc"])))
+        nodes.append((name, dict(nodes)[out]))
+        ordered[name] = ordered.get(out, True)
+        out = name
     if e2e and r.chance(1, 4):
         kind = r.choice(["count", "count", "writer", "scan"])
         name = "N%d" % len(nodes)
